@@ -11,13 +11,15 @@ import c08
 
 PROPERTY = 'C09'
 MANIFEST = {
- 'level_text': 'Lean 4 theorems, kernel-checked, about the connection-machine model shared with C08 (Irc handlers, _abortIfSaslRequired, _onCapSts, parseStsPolicy, ServersMixin._applyStsPolicy/_getNextServer, SocketDriver.reconnect/starttls/_sendIfMsgs; FSM tables regenerated from /repo on every run). sasl_required_safe: with sasl.required, in every state reachable by any sequence of server messages and resets, being past the negotiation / afterConnect / a CAP END sent in this epoch implies that the server confirmed SASL success (903) inside a SASL exchange that started after a CAP ACK of sasl; auth_only_in_exchange: sasl_authenticated is raised only by the 903 handler and only when the FSM was in INIT_SASL/CONNECTED_SASL (an unsolicited 903 is ignored); cap_end_needs_auth. STS: sts_parse (parseStsPolicy is None exactly on a missing/valueless/non-integer port, or duration when needed, for all strings); sts_store_only_secure (no feedMsg on a connection that is not verified TLS adds or changes a stored policy unless it opened a new socket; outright for the stub driver); sts_insecure_upgrade + upgrade_reconnect + flush_not_connected + upgrade_next_server + forced_tls_verified (a valid policy on an insecure connection makes the bot call reconnect(Server(host, port, attempt, True), wait=True) in state SHUTTING_DOWN; the real driver closes the socket, writes nothing while disconnected, connects next to a forced server of that host with TLS and verification); sts_applied / sts_not_expired_without_disconnect / sts_expired_dropped / sts_stored_policy_applied (store and lookup use the configured host string as it is: whatever its spelling, the policy stored on a verified connection is applied to the next connections to that host until it expires). Tied to the code by differential correspondence on required-SASL histories (stub driver) and STS histories with the real SocketDriver over a fake socket (policy strings x connection kinds x stored-policy ages x disconnect histories), with the C09 statements evaluated on the implementation from the outside (SASL success = 903 received while the observed FSM state was a SASL state).',
- 'level_note': 'Trusted: Lean kernel, axioms propext/Classical.choice/Quot.sound only; harness/extractors/conn.py; the correspondence harness incl. the fake socket and the patched utils.net functions (TLS itself is outside: the claim is which port, whether TLS and which verify flag are passed). sasl_required_safe is proved for all histories of the stub-driver operations (messages, resets) and, as sasl_required_safe_real, for all histories of the real SocketDriver run loop (any clock values, due/not-due reconnects, recv chunks); the STS statements about the run loop are function-level theorems at the decision points plus the correspondence. A 903 sent in INIT_SASL before the credentials went out is honoured (the code keeps no "response sent" flag). Owner.do376\'s JOINs are checked by the oracle (never on the wire without success), not by a theorem. Python int() of policy numbers: ASCII digits, sign, single underscores; Unicode digits and the 4300-digit limit are outside the model.',
+ 'level_text': 'Lean 4 theorems, kernel-checked, about the connection-machine model shared with C08 (Irc handlers, _abortIfSaslRequired, _onCapSts, parseStsPolicy, ServersMixin._applyStsPolicy/_getNextServer, SocketDriver.reconnect/starttls/_sendIfMsgs; FSM tables regenerated from /repo on every run). sasl_required_safe: with sasl.required, in every state reachable by any sequence of server messages and resets, being past the negotiation / afterConnect / a CAP END sent in this epoch implies that the server confirmed SASL success (903) inside a SASL exchange that started after a CAP ACK of sasl; auth_only_in_exchange: sasl_authenticated is raised only by the 903 handler, only when the FSM was in INIT_SASL/CONNECTED_SASL and only after a complete response of the bot went out for the mechanism requested last (an unsolicited 903, and a 903 right after AUTHENTICATE <mechanism>, are ignored); response_only_by_authenticate: that flag is raised only while handling a server AUTHENTICATE inside a SASL state; cap_end_needs_auth. STS: sts_parse (parseStsPolicy is None exactly on a missing/valueless/non-integer port, or duration when needed, for all strings); sts_store_only_secure_msg / _lines / _run (no feedMsg, no recv chunk of any lines, no whole SocketDriver.run() without a due reconnect on a connection that is not verified TLS adds or changes a stored policy: the handlers that store never open a socket and vice versa); C08.sts_no_downgrade_real (along every real-driver history, while connected to a host with a stored policy the connection is forced-verified TLS or ssl with a certificate validation of the operator); sts_insecure_upgrade + upgrade_reconnect + flush_not_connected + upgrade_next_server + forced_tls_verified (a valid policy on an insecure connection makes the bot call reconnect(Server(host, port, attempt, True), wait=True) in state SHUTTING_DOWN; the real driver closes the socket, writes nothing while disconnected, connects next to a forced server of that host with TLS and verification); sts_applied / sts_not_expired_without_disconnect / sts_expired_dropped / sts_stored_policy_applied (store and lookup use the configured host string as it is: whatever its spelling, the policy stored on a verified connection is applied to the next connections to that host until it expires). Tied to the code by differential correspondence on required-SASL histories (stub driver) and STS histories with the real SocketDriver over a fake socket (policy strings x connection kinds x stored-policy ages x disconnect histories), with the C09 statements evaluated on the implementation from the outside (SASL success = 903 received while the observed FSM state was a SASL state and after a complete AUTHENTICATE answer of the bot since its last mechanism request).',
+ 'level_note': 'Trusted: Lean kernel, axioms propext/Classical.choice/Quot.sound only; harness/extractors/conn.py; the correspondence harness incl. the fake socket and the patched utils.net functions (TLS itself is outside: the claim is which port, whether TLS and which verify flag are passed). sasl_required_safe is proved for all histories of the stub-driver operations (messages, resets) and, as sasl_required_safe_real, for all histories of the real SocketDriver run loop (any clock values, due/not-due reconnects, recv chunks); the STS store and no-downgrade statements are proved along whole runs / histories of the real driver, the upgrade sequence itself (decision, close, schedule, next server, TLS choice) as function-level theorems at its decision points plus the correspondence. Owner.do376\'s JOINs: C08.join_needs_motd_end / join_only_after_motd_real (theorems) and the oracle (never on the wire without success). Python int() of policy numbers: ASCII digits, sign, single underscores; Unicode digits and the 4300-digit limit are outside the model.',
  'technique': 'Lean 4 proof (invariant over all server message sequences via refinement to an abstract move system; function-level theorems at the STS decision points) + table extraction + differential correspondence incl. the real SocketDriver over a fake socket',
  'design_ref': 'DESIGN.md §6 C09',
 }
-THEOREMS = ['C09.sasl_required_safe', 'C09.sasl_required_safe_real', 'C09.auth_only_in_exchange', 'C09.cap_end_needs_auth', 'C09.sts_parse', 'C09.stsInt_none',
-            'C09.sts_store_only_secure', 'C09.sts_store_only_secure_stub', 'C09.sts_insecure_upgrade',
+THEOREMS = ['C09.sasl_required_safe', 'C09.sasl_required_safe_real', 'C09.auth_only_in_exchange', 'C09.response_only_by_authenticate',
+            'C09.cap_end_needs_auth', 'C09.sts_parse', 'C09.stsInt_none',
+            'C09.sts_store_only_secure', 'C09.sts_store_only_secure_stub', 'C09.sts_store_only_secure_msg', 'C09.sts_store_only_secure_lines',
+            'C09.sts_store_only_secure_run', 'C08.sts_no_downgrade_real', 'C08.join_only_after_motd_real', 'C09.sts_insecure_upgrade',
             'C09.upgrade_reconnect', 'C09.flush_not_connected', 'C09.upgrade_next_server', 'C09.forced_tls_verified',
             'C09.sts_applied', 'C09.sts_not_expired_without_disconnect', 'C09.sts_expired_dropped',
             'C09.sts_stored_policy_applied', 'C09.connectTo_host']
